@@ -12,6 +12,7 @@ import Driver.FunctorCmd
 import Driver.CartesianCmd
 import Driver.WiresCmd
 import Driver.ReprCmd
+import Driver.PyzxCmd
 
 def handlers : List (String → List String → Option String) :=
   [ DV.CoreCmd.handle
@@ -20,6 +21,7 @@ def handlers : List (String → List String → Option String) :=
   , DV.CartCmd.handle
   , DV.WiresCmd.handle
   , DV.ReprCmd.handle
+  , DV.PyzxCmd.handle
   ]
 
 def handle (line : String) : String :=
